@@ -2,7 +2,7 @@
 import ast
 
 from ..core import Rule, AnalysisError
-from ..rules import crash, scoped, sC41
+from ..rules import crash, scoped, sC41, s4C41
 from ..engine import tables
 from ..engine.pyindex import walk_no_nested
 
@@ -120,4 +120,5 @@ def rule_scoped_reads(ctx):
 def run(ctx):
     return [scoped.rule_V3_attr(ctx), rule_tabkeys(ctx), crash.rule_L4(ctx), crash.rule_L5(ctx), rule_scoped_reads(ctx),
             sC41.rule_UDEF(ctx), sC41.rule_RUN(ctx), sC41.rule_LAYER(ctx),
-            sC41.rule_BOOLTAB(ctx), sC41.rule_SCOPE(ctx), sC41.rule_CONTENTS(ctx), sC41.rule_INHERIT(ctx), sC41.rule_HEADER(ctx), sC41.rule_DECORDER(ctx), sC41.rule_CTX(ctx), sC41.rule_UNKNOWN(ctx)]
+            sC41.rule_BOOLTAB(ctx), sC41.rule_SCOPE(ctx), sC41.rule_CONTENTS(ctx), sC41.rule_INHERIT(ctx), sC41.rule_HEADER(ctx), sC41.rule_DECORDER(ctx), sC41.rule_CTX(ctx), sC41.rule_UNKNOWN(ctx),
+            s4C41.rule_ENVREAD(ctx), s4C41.rule_MERGE(ctx)]
